@@ -89,6 +89,10 @@ def model_class():
                 raise coopsched.Kill()
             k = self.nh
             self.nh += 1
+            if self.nh > 3000:
+                # watchdog against a runaway run loop: stop generating work
+                self.dead = True
+                raise RuntimeError("runaway")
             self.log.append((name, self.now()))
             if self.init_at == k:
                 from pydsol.core.utils import DSOLError
@@ -229,7 +233,9 @@ PRIORS = [("none",), ("init-only",), ("init-twice",), ("step", 1),
           ("fault-at", 2), ("upto", 1.0), ("uptoi", 2.0), ("ended",),
           ("ended-short",), ("ended-long",), ("end_replication", 2),
           ("cleanup-after-steps",), ("stop-then-step",),
-          ("init-from-handler", 2)]
+          ("init-from-handler", 2), ("init-from-listener", "STARTING"),
+          ("init-from-listener", "START"),
+          ("init-from-listener", "START_REPLICATION")]
 
 
 def run_case(case):
@@ -297,6 +303,32 @@ def run_case(case):
                             sim.start()
                             wait_idle(sim, s)
                             sim.step()
+                        elif k == "init-from-listener":
+                            from pydsol.core.pubsub import EventListener
+                            from pydsol.core.utils import DSOLError as DE
+                            outl = []
+
+                            class ReInit(EventListener):
+                                def notify(self_, e):
+                                    if outl:
+                                        return
+                                    try:
+                                        sim.initialize(m, r0)
+                                        outl.append("accepted")
+                                    except DE:
+                                        outl.append("DSOLError")
+                                    except Exception as ex:  # noqa
+                                        outl.append("other:" +
+                                                    type(ex).__name__)
+                            nm = {v: k_ for k_, v in rec.names.items()}
+                            sim.add_listener(nm[prior[1]], ReInit())
+                            n0 = sim.eventlist().size()
+                            sim.start()
+                            wait_idle(sim, s)
+                            notes.append(("init-from-listener",
+                                          outl[0] if outl else None, n0,
+                                          len(m.log),
+                                          sim.run_state.name))
                         elif k == "init-from-handler":
                             m.init_at = prior[1]
                             sim.start()
@@ -337,6 +369,11 @@ def run_case(case):
     for n in sub.get("notes", []):
         if n[0] == "init-from-handler" and n[1] != "DSOLError":
             bad.append(("initialize-while-running-not-refused", n, None))
+        if n[0] == "init-from-listener":
+            if n[1] != "DSOLError":
+                bad.append(("initialize-while-starting-not-refused", n, None))
+            elif n[3] < 5 or n[4] != "ENDED":
+                bad.append(("refused-initialize-disturbed-the-run", n, None))
         if n[0].startswith("prior-raised"):
             bad.append(("prior-history-raised", n, None))
     return bad, o
